@@ -270,6 +270,19 @@ def validate(chk, trace_path, nodes, invariants=None, module="TraceG", extra_con
                 lines = r["lines"][start - 1:line_no]
                 cmds = [json.loads(json.loads(x)["cmd"]) for x in lines[1:]]
                 if v.violation is None:
+                    # keep what the real code was observed to do, for diagnosis (the walks of the
+                    # gossip engine are not bit-reproducible: the code shuffles with math/rand)
+                    try:
+                        dd = os.path.join(vp.OUT, "observed")
+                        os.makedirs(dd, exist_ok=True)
+                        old = sorted(glob.glob(os.path.join(dd, "*.ndjson")), key=os.path.getmtime)
+                        for f in old[:-19]:
+                            os.remove(f)
+                        with open(os.path.join(dd, "%s-%s-%s-%d.ndjson" % (chk.prop, module, label,
+                                                                        int(time.time()))), "w") as f:
+                            f.write("\n".join(lines) + "\n")
+                    except OSError:
+                        pass
                     v.violation = {
                         "invariant": res.violated,
                         "step_violations": names[-1] if names else "{}",
